@@ -211,6 +211,28 @@ func ruleMATRIX(c *Ctx) {
 						okArg = true
 					}
 				}
+				// a local defined once as !Flags.Get(AllowInvalidUTF8) (hoisted out of a loop)
+				if lv, _ := IdentObj(info, last).(*types.Var); lv != nil {
+					nDef, okDef := 0, false
+					InspectNoLit(f.Body(), func(m ast.Node) bool {
+						if as, isAs := m.(*ast.AssignStmt); isAs && len(as.Lhs) == len(as.Rhs) {
+							for i, l := range as.Lhs {
+								if IdentObj(info, l) == lv {
+									nDef++
+									if u, ok := ast.Unparen(as.Rhs[i]).(*ast.UnaryExpr); ok && u.Op == token.NOT {
+										if v, ok := IsFlagGet(info, u.X); ok && v&^1 == allowUTF {
+											okDef = true
+										}
+									}
+								}
+							}
+						}
+						return true
+					})
+					if nDef == 1 && okDef {
+						okArg = true
+					}
+				}
 				// pure forwarding of the caller's own validateUTF8 parameter inside jsonwire
 				if pv, _ := IdentObj(info, last).(*types.Var); pv != nil && f.Obj != nil {
 					sig := f.Obj.Type().(*types.Signature)
@@ -285,7 +307,6 @@ func ruleMATRIX(c *Ctx) {
 		}
 	}
 }
-
 
 func rulePOS1(c *Ctx) {
 	p := c.P
